@@ -7,10 +7,11 @@ coming back), one whose state growth exceeds the proved bound, or one whose wall
 leaves the linear regime.
 
 Every implementation run happens in a supervised worker: address space 2 GB, CPU time 300 s, stack 1 GB (the
-extracted model recurses over 10^6-element lists), wall-clock limits of lib/vcheck.  No case carries a size
-operand above 10^6 or a doubling program with more than 18 doublings.
+extracted model recurses over 10^6-element lists), wall-clock limits of lib/vcheck.  No case that the MODEL runs
+carries a size operand above 10^6 or a doubling program with more than 18 doublings; the implementation alone also
+runs the three vector RAND instructions at 2^24+1 .. 3*10^7 elements (stream huge-rand-vectors, 60 s per case).
 """
-import random, resource, sys, time
+import random, re, resource, sys, time
 import vcheck
 from vcheck import Stream, sx_parse, sx_str
 from gen.stategen import *
@@ -26,7 +27,8 @@ ASSUMPTIONS = [
     "PARTIAL: the model carries a COUNTING argument only (Model/Cost.v: cells held by the state, cells allocated + loop iterations of an instruction body as written). Real RSS, allocator failure and wall-clock time are runtime facts: they are measured on the implementation for the case list of this check (2 GB address space, 300 s CPU per worker; < 2 s per step on states of up to 10^5 cells) and not proved",
     "a printed cell is counted as one cell: the number of characters per printed number (f32 `{:.3}`: up to 47) is a fact about formatting outside FloatOps's interface; CODE.PRINT, GRAPH.PRINT, GRAPH.PRINT*DIFF are therefore outside the one-step growth theorem, and so are NAME.RAND, NAME.RANDBOUNDNAME, CODE.RAND (generated names: their length comes from the oracle tape in the model)",
     "the cost table of Model/Cost.v is read off the Rust source by hand (upper estimates marked); its tie to the code is the growth measurement of this check and the wall-clock stream, not a differential comparison (the implementation exposes no operation counter)",
-    "vector lengths and stack depths stay below 2^31; no case carries a size operand above 10^6 (never i32::MAX) or more than 18 doublings",
+    "vector lengths and stack depths stay below 2^31; no case carries a size operand above 3*10^7 (above 10^6: implementation only, vector RAND; never i32::MAX) or more than 18 doublings",
+    "results holding a vector of more than 2*10^7 characters are cut to the first 400000 characters of that vector before the extracted predicate reads them (weight is monotone: 'exceeds the bound' is preserved); 'the step returned' is observed on the uncut run",
 ]
 TRUSTED_EXTRA = ["checks/C15.py replaces vcheck._limits for its own workers: RLIMIT_AS 2 GB, RLIMIT_CPU 300 s, RLIMIT_STACK 1 GB"]
 
@@ -220,18 +222,28 @@ def streams(seed, tier):
 # implementation-only evaluation: cases whose result the model cannot (unseeded RNG) or should not (10^6 float
 # operations in Flocq) reproduce.  The property predicate is still the extracted Coq function, evaluated on the
 # implementation's own output.
-def impl_only(ctx, name, cases, note, time_limit=None):
+def impl_only(ctx, name, cases, note, time_limit=None, parallel=1):
     lines = ["run " + c for c in cases]
-    outs, times = [], []
-    for l in lines:                                   # one supervised process per case: wall-clock per case
+
+    def one(l):                                       # one supervised process per case: wall-clock per case
         t0 = time.time()
-        outs.append(vcheck.run_impl([l], timeout=60)[0])
-        times.append(time.time() - t0)
+        o, n = cut_huge(vcheck.run_impl([l], timeout=CASE_WALL_LIMIT_S)[0])
+        return o, time.time() - t0, n
+    if parallel > 1:
+        from concurrent.futures import ThreadPoolExecutor
+        with ThreadPoolExecutor(parallel) as ex:
+            got = list(ex.map(one, lines))
+    else:
+        got = [one(l) for l in lines]
+    outs, times, sizes = [g[0] for g in got], [g[1] for g in got], [g[2] for g in got]
     verdicts = vcheck.run_checker("cost.check", cases, outs)
     stat = ctx.stats.setdefault(name, {"cases": 0, "impl_panics": 0, "disagree": 0, "pred_fail": 0, "out_of_scope": 0, "note": note,
                                        "max_wall_s": 0.0, "model_compared": False})
     stat["cases"] += len(cases)
     stat["max_wall_s"] = round(max([stat["max_wall_s"]] + times), 3)
+    if max(sizes + [0]):
+        stat["max_result_elements"] = max(sizes + [stat.get("max_result_elements", 0)])
+        stat["did_not_return_within_%ds" % CASE_WALL_LIMIT_S] = stat.get("did_not_return_within_%ds" % CASE_WALL_LIMIT_S, 0) + sum(1 for o in outs if o.startswith("(9"))
     ctx.evaluations += len(cases)
     for c, o, v, dt in zip(cases, outs, verdicts, times):
         if o == vcheck.BAD or v == vcheck.BAD:
@@ -247,7 +259,8 @@ def impl_only(ctx, name, cases, note, time_limit=None):
             if kf:
                 ctx.known_hits[kf["key"]] = kf["what"]
             else:
-                ctx.violation("the step did not return or grew the state beyond the proved bound", {
+                ctx.violation("the step did not return within %d s (worker killed: %s)" % (CASE_WALL_LIMIT_S, o) if o.startswith("(9") else
+                              "the step panicked" if o == "(1)" else "the step grew the state beyond the proved bound", {
                     "property": ctx.prop, "kind": "predicate-fails", "stream": name, "suite": "run", "checker": "cost.check",
                     "case": c, "impl_output": o[:2000], "how_to_replay": "bin/check C15 --replay <this file>"})
         if time_limit is not None and dt > time_limit and not o.startswith("(9"):
@@ -260,6 +273,54 @@ def impl_only(ctx, name, cases, note, time_limit=None):
     if len(ctx.samples) < 16 and cases:
         ctx.samples.append({"stream": name, "case": "run " + cases[0][:300], "impl": outs[0][:200], "model": "(not compared)", "predicate": verdicts[0],
                             "wall_s": round(times[0], 3)})
+
+
+CASE_WALL_LIMIT_S = 60
+_HUGE = re.compile(r"\(([^()]{400000})[^()]*\)")
+
+
+def cut_huge(o):
+    """A flat list of more than 400000 characters in a result (a vector of millions of elements) is cut to its first
+    400000 characters before the result goes to the extracted Coq predicate (the OCaml reader does not survive 3 * 10^7
+    elements under this check's limits).  The weight of a state is monotone in its vectors, so `exceeds the growth bound`
+    is preserved by the cut (and nothing is ever cut below 10^5 elements).  Returns (result, elements of the longest list)."""
+    if len(o) < 20000000:                             # the 10^6-element results of the older streams stay whole
+        return o, 0
+    n = [0]
+
+    def f(m):
+        n[0] = max(n[0], m.group(0).count(" ") + 1)
+        head = m.group(1)
+        return "(" + head[:head.rindex(" ")] + ")"
+    return _HUGE.sub(f, o), n[0]
+
+
+def rand_vec_case(prof, name, n, sparsity=0.25):
+    st = dict(exec=[I(name)], int=[n])
+    if name == "BOOLVECTOR.RAND":
+        st["float"] = [fbits(sparsity)]
+    elif name == "INTVECTOR.RAND":
+        st["int"] = [n, 10, 0]
+    else:
+        st["float"] = [fbits(0.0), fbits(1.0)]
+    return case_run(prof, state(**st), 0, 1)
+
+
+def huge_rand_cases(tier):
+    """vector RAND above 2^24 elements (where `size as f32` is no longer exact) for dense, half and sparse vectors"""
+    sizes = [2 ** 24 + 1, 2 ** 24 + 3, 30000000]
+    spars = [1.0, 0.999, 0.996, 0.75, 0.5, 0.004]
+    cases = []
+    for n in sizes:
+        for sp in spars:
+            if tier == "quick" and n != 2 ** 24 + 3 and sp in (0.996, 0.75, 0.004) and (n, sp) != (30000000, 0.004):
+                continue
+            cases.append(rand_vec_case(1, "BOOLVECTOR.RAND", n, sp))
+    cases.append(rand_vec_case(1, "INTVECTOR.RAND", 2 ** 24 + 3))
+    cases.append(rand_vec_case(1, "FLOATVECTOR.RAND", 2 ** 24 + 3))
+    if tier != "quick":                               # the debug binary needs 9 .. 13 s for half-dense vectors of this size
+        cases += [rand_vec_case(0, "BOOLVECTOR.RAND", 2 ** 24 + 3, sp) for sp in (1.0, 0.996, 0.004)]
+    return cases
 
 
 def big_vec(n, kind):
@@ -321,6 +382,11 @@ def extra(ctx):
             cases.append(size_case(1, nm, 1000000))
     impl_only(ctx, "unbounded-impl-only", cases,
               "vector RAND / FLOATVECTOR.SINE / LIST.NEIGHBOR* at 10^4 and 10^6 on the implementation alone (unseeded RNG; 10^6 Flocq operations): complete, violate the bound, known classes")
+    impl_only(ctx, "huge-rand-vectors", huge_rand_cases(ctx.tier),
+              "BOOLVECTOR.RAND with sizes 2^24+1, 2^24+3, 3*10^7 x sparsities 1, .999, .996, .75, .5, .004 (quick: all six at 2^24+3, three or four at the other sizes), INTVECTOR.RAND and "
+              "FLOATVECTOR.RAND at 2^24+3, release binary, one supervised process per case (4 at a time), %d s wall-clock each: the step RETURNS (a step that does not is a violation) "
+              "and exceeds the growth bound (known class alloc-by-operand-rand); the result vector is cut to 10^5+ elements before the Coq predicate reads it" % CASE_WALL_LIMIT_S,
+              parallel=4)
     # the scalar generators and CODE.RAND: bounded by the configured limits, results random
     cases = []
     for nm in sorted(stepgen.RANDOM - set(RANDVEC)):
